@@ -296,6 +296,8 @@ package resource
 //@   ensures [event-time] err == nil ==> cast(lastarg(Send, 2), *ValueChange).ChangeTime == recv.changeTime
 //@   replay [event-time] ValueEventTime()
 //@   ensures [at-most-one-event] calls(Send) <= old(calls(Send)) + 1
+//@   ensures [publish-under-lock@C03] err == nil ==> lastheldW(Send, recv.mu)
+//@   replay [publish-under-lock] PublishOrder(0)
 //@   // C07: the stored message is a fresh object, never the caller's message nor the previous stored one, and the
 //@   // previously stored message is left exactly as it was
 //@   ensures [fresh-store] err == nil ==> fresh(res) && res != value
@@ -390,6 +392,13 @@ package resource
 //@   ensures [no-commit-on-failure] err != nil ==> (forall k int :: n0 <= k && k < cbcalls() ==> cbfn(k) != save)
 //@   ensures [unlocked] !held(mu)
 //@
+//@ // the verif-tagged yield points only hand control to a test's scheduler (assumed: the hook touches no state)
+//@ property C01 C02 C03 C04 C05 C07 C11
+//@ func verifYield(point)
+//@   trusted
+//@   option opaque
+//@   modifies nothing
+//@
 //@ // ---- subscribing: the snapshot a subscriber starts from is taken in the SAME critical section in which its listener is
 //@ // registered on the bus, so no commit can fall between the two (C03; interference mode) ----
 //@ property C03
@@ -401,6 +410,9 @@ package resource
 //@   ensures [updates-only] config.UpdatesOnly ==> isnil(value) && calls(Listen) == old(calls(Listen)) + 1
 //@   ensures [unlocked] !held(recv.mu)
 //@
+//@ // C03 "no event overtakes a later commit": an event is published while the write lock that committed it is still
+//@ // held, otherwise two writers may publish in the opposite order of their commits and a subscriber ends on the older
+//@ // value.  Delete does this; Value.set and Collection.Update publish after releasing the lock: recorded findings.
 //@ func (*Collection).onUpdate(ctx, config) (ch, res)
 //@   mode INT
 //@   requires wfColl(recv) && config != nil && !isnil(ctx)
@@ -438,6 +450,8 @@ package resource
 //@   ensures [one-event@C01+C04] err == nil ==> calls(Send) == old(calls(Send)) + 1
 //@   ensures [event@C01+C04] err == nil ==> istype(lastarg(Send, 2), *CollectionChange) && ev.Id == key &&
 //@   |   ev.NewValue == res && ev.ChangeTime == recv.byId[key].changeTime
+//@   ensures [publish-under-lock@C03] err == nil ==> lastheldW(Send, recv.mu)
+//@   replay [publish-under-lock] PublishOrder(1)
 //@   ensures [event-kind@C01+C04] err == nil ==> (old(has(recv.byId, key)) ==> ev.ChangeType == types.ChangeType_UPDATE && ev.OldValue == old(recv.byId[key].body)) &&
 //@   |   (!old(has(recv.byId, key)) ==> ev.ChangeType == types.ChangeType_ADD && isnil(ev.OldValue))
 //@   // preconditions of the write
@@ -481,6 +495,7 @@ package resource
 //@   |   (forall k string :: k != key ==> has(recv.byId, k) == old(has(recv.byId, k)) && recv.byId[k] == old(recv.byId[k]))
 //@   ensures [one-event@C01+C04] err == nil && old(has(recv.byId, key)) ==> calls(Send) == old(calls(Send)) + 1 && istype(lastarg(Send, 2), *CollectionChange) &&
 //@   |   ev.Id == key && ev.ChangeType == types.ChangeType_REMOVE && ev.OldValue == res && isnil(ev.NewValue)
+//@   ensures [publish-under-lock@C03] err == nil && old(has(recv.byId, key)) ==> lastheldW(Send, recv.mu)
 //@   ensures [check-honoured] old(has(recv.byId, key)) && args.expectedCheck != nil && args.expectedCheck(old(recv.byId[key].body)) != nil ==> err != nil
 //@   ensures [value-honoured] old(has(recv.byId, key)) && !isnil(args.expectedValue) && !equalmsg(old(recv.byId[key].body), args.expectedValue) ==> err != nil
 //@   ensures [wf] wfColl(recv)
